@@ -660,6 +660,7 @@ func isByte(t types.Type) bool {
 // R-NONEMPTYFRAG (C32): the fragment list that Process sorts, merges and indexes with [0] only receives non-empty
 // fragments, and the disjoint-fragment update is only handed a non-empty chain.
 func (c *Ctx) ruleNonEmptyFrag() {
+	c.doc("R-CHAIN/completed", "dot/sync Process: the result of updateIncompleteBlocks (blocks completed by a body-only response, which no chain check covers) is never appended to the ready list as one fragment; each completed block is a fragment of its own")
 	c.doc("R-NONEMPTYFRAG", "dot/sync Process: every append to the fragment list handed to sortFragmentsOfChain/mergeFragmentsOfChain, and every chain handed to updateDisjointFragments, is dominated by the non-empty edge of a len() test of that slice (or of the response data it is): an empty or duplicated response must not reach fragment[0]")
 	f := c.fn(syncDir, "(*FullSyncStrategy).Process")
 	if f == nil {
@@ -745,6 +746,24 @@ func (c *Ctx) ruleNonEmptyFrag() {
 			// only the list that flows into the sort/merge matters: the ready list
 			ord++
 			n++
+			// a one-block slice literal is non-empty and trivially a chain
+			single := false
+			if sl, ok := frag.(*ssa.Slice); ok {
+				if al, ok := sl.X.(*ssa.Alloc); ok {
+					if arr, ok := al.Type().Underlying().(*types.Pointer).Elem().Underlying().(*types.Array); ok && arr.Len() == 1 {
+						single = true
+					}
+				}
+			}
+			// the blocks completed by a body response are not known to be linked: never one fragment
+			if cl, ok := frag.(*ssa.Call); ok && cl.Call.StaticCallee() != nil && cl.Call.StaticCallee().Name() == "updateIncompleteBlocks" {
+				c.ob("R-CHAIN/completed", fmt.Sprintf("Process:completed-blocks-as-one-fragment#%d", ord), call.Pos(), false,
+					"the blocks completed by a body-only response are appended as ONE fragment although nothing checked that they are linked: only the first one's parent is tested before they are all handed to the importer")
+			}
+			if single {
+				c.ob("R-NONEMPTYFRAG", fmt.Sprintf("Process:append-fragment#%d", ord), call.Pos(), true, "one-block fragment")
+				return
+			}
 			c.ob("R-NONEMPTYFRAG", fmt.Sprintf("Process:append-fragment#%d", ord), call.Pos(), guardedBy(b, nonEmpty(frag)),
 				"a fragment is appended to a fragment list without a dominating len(fragment) > 0 test: an empty fragment panics at fragment[0] / a[0] in the sort")
 		case call.Call.StaticCallee() != nil && call.Call.StaticCallee().Name() == "updateDisjointFragments":
@@ -758,6 +777,7 @@ func (c *Ctx) ruleNonEmptyFrag() {
 	if n == 0 {
 		c.unresolved("fragment-list appends in Process")
 	}
+	c.ob("R-CHAIN/completed", "Process:ready-appends-examined", f.Pos(), n > 0, fmt.Sprintf("%d appends/calls examined", n))
 }
 
 // R-CHILDPERSIST (C36): persisting a state writes its child tries whatever the shape of the top trie.
